@@ -14,8 +14,8 @@ class Ctx:
         sf = os.path.join(wd, "pre.txt"); open(sf, "w").write("\n".join(lines) + "\n")
         return subprocess.run([check.harness_bin(feat)], stdin=open(sf), stdout=subprocess.PIPE, text=True).stdout
 groups = collections.OrderedDict()
-for tier in ("quick", "thorough"):
-    gen = spec["gen"](tier, 1, Ctx()) if spec.get("ctx") else spec["gen"](tier, 1)
+for tier, seed in (("quick", 1), ("quick", 2), ("quick", 3), ("quick", 4), ("thorough", 1)):
+    gen = spec["gen"](tier, seed, Ctx()) if spec.get("ctx") else spec["gen"](tier, seed)
     for feat in spec.get("feats", ["v3"]):
         lines = gen.get(feat, [])
         byid = {re.match(r"id=(\S+)", l).group(1): l for l in lines}
@@ -26,9 +26,11 @@ for tier in ("quick", "thorough"):
         for f, sid, d in fails:
             site = re.search(r"site=(\S+)", d).group(1); reason = re.search(r"reason=(\S+)", d).group(1)
             panel = site.split("/")[0]
-            g = groups.setdefault((panel, feat if panel == "epd2in13_v2" and feat == "v2" else "v3"), {"reasons": set(), "sites": set(), "wit": None})
+            g = groups.setdefault((panel, "v3"), {"reasons": set(), "sites": set(), "wit": None, "ctx": set()})
             g["reasons"].add(reason); g["sites"].add(site)
-            if g["wit"] is None and tier == "quick" and sid in byid:
+            mc = re.search(r"ctx=(\S+)", d)
+            if mc: g["ctx"].add(mc.group(1))
+            if g["wit"] is None and tier == "quick" and seed == 1 and sid in byid:
                 g["wit"] = (byid[sid], re.search(r"got=(\S+)", d).group(1), site, reason)
 shutil.rmtree(wd, ignore_errors=True)
 out = []
@@ -36,11 +38,16 @@ for (panel, feat), g in groups.items():
     if g["wit"] is None:
         print("NO QUICK WITNESS", panel, g["reasons"], file=sys.stderr); continue
     wl, got, wsite, wreason = g["wit"]
-    wl = re.sub(r"^id=\S+", f"id=kf-{prop}-{panel}{'-v2' if feat=='v2' else ''}", wl)
+    if prop in ("C04", "C12"):
+        # twin-compared properties keep the twin naming of the witness id
+        wl = re.sub(r"^id=(\S+)", lambda m: "id=kf-" + m.group(1), wl)
+    else:
+        wl = re.sub(r"^id=\S+", f"id=kf-{prop}-{panel}{'-v2' if feat=='v2' else ''}", wl)
     sites = sorted(g["sites"])
     e = {"id": f"KF-{prop}-{panel}{'-v2' if feat=='v2' else ''}", "property": prop, "status": "open", "site": wsite, "sites": sites, "reason": wreason, "reasons": sorted(g["reasons"]),
          "witness": wl, "witness_got": got, "what": WHAT.get(f"{prop}/{panel}", "TODO"), "scope": ", ".join(sites)}
-    if feat != "v3":
-        e["feat"] = feat
+    # only findings that exist in ONE history class carry a ctx restriction
+    if g["ctx"] and len(g["ctx"]) == 1 and f"{prop}/{panel}" in ("C06/epd1in02",):
+        e["ctx"] = sorted(g["ctx"])
     out.append(e)
 print(json.dumps(out, indent=1))
